@@ -112,7 +112,7 @@ func genC15(tier string, seed uint64, emit func(string)) {
 			case 3:
 				if len(open) > 0 {
 					k := r.Intn(len(open))
-					acts = append(acts, []string{"cclose:", "quit:", "rst:"}[r.Intn(3)]+open[k])
+					acts = append(acts, []string{"cclose:", "quit:", "rst:", "unread:"}[r.Intn(4)]+open[k])
 					open = append(open[:k], open[k+1:]...)
 				}
 			case 4:
@@ -122,6 +122,18 @@ func genC15(tier string, seed uint64, emit func(string)) {
 			}
 		}
 		acts = append(acts, "stop", "obs")
+		emit(lifeLine("plain", acts))
+	}
+	// Stop while clients keep connecting: a connection accepted while Stop runs must not survive it or block it
+	storms := 4
+	if tier == "thorough" {
+		storms = 40
+	}
+	for i := 0; i < storms; i++ {
+		var acts []string
+		for j := 0; j < 10; j++ {
+			acts = append(acts, "start", "open:p:a", "stopstorm", "obs", "alive:a")
+		}
 		emit(lifeLine("plain", acts))
 	}
 }
@@ -134,8 +146,10 @@ func oracleC15(cfg []string, results []string) string {
 		switch {
 		case a == "start" && v == "ok", a == "restart" && v == "ok":
 			running = true
-		case a == "stop" && v == "ok":
+		case a == "stop" && v == "ok", a == "stopstorm" && v == "ok":
 			running = false
+		case a == "stopstorm":
+			return fmt.Sprintf("fail:Stop did not return while clients kept connecting (%s at step %d)", r, i)
 		case (a == "ping:p" || a == "ping:t") && running && v != "ok":
 			return fmt.Sprintf("fail:after a successful Start/Restart the server does not serve (%s at step %d)", r, i)
 		case strings.HasPrefix(a, "open:p") && running && v != "ok":
@@ -155,7 +169,7 @@ func oracleC15(cfg []string, results []string) string {
 // C19
 // ---------------------------------------------------------------------------------------------------
 
-var endings = []string{"cclose", "rst", "quit", "bad", "half"}
+var endings = []string{"cclose", "rst", "quit", "bad", "half", "unread"}
 var tlsFaults = []string{"plaintext", "garbage", "abort", "none", "selfsigned", "foreign", "expired"}
 
 func genC19(tier string, seed uint64, emit func(string)) {
@@ -250,7 +264,7 @@ func oracleC19(cfg []string, results []string) string {
 			if f[1] == "stall" && v == "pending" {
 				open[f[len(f)-1]] = true
 			}
-		case "cclose", "rst", "quit", "bad", "half":
+		case "cclose", "rst", "quit", "bad", "half", "unread":
 			delete(open, f[1])
 		case "obs":
 			want := fmt.Sprintf("conns=%d,", len(open))
